@@ -71,6 +71,13 @@ Theorem C06_prune_keeps_boundaries : forall cs start stop,
 Proof. exact prune_keeps_boundaries. Qed.
 Print Assumptions C06_prune_keeps_boundaries.
 
+(* at least one existing chunk is always kept, whatever the slice (also an empty one): no zero-size chunk is ever
+   requested from the store at the offset of a real chunk (finding F20, fixed). *)
+Theorem C06_prune_keeps_one : forall cs start stop, cs <> [] ->
+  let '(cs2, _, _, _) := prune_core cs start stop in cs2 <> [].
+Proof. exact prune_keeps_one. Qed.
+Print Assumptions C06_prune_keeps_one.
+
 (* ... the adjusted slice lies inside the pruned array and addresses the same stored elements. *)
 Theorem C06_prune_selects_same_data : forall cs start stop,
   0 <= start -> start <= stop -> stop <= zsum cs ->
